@@ -35,6 +35,10 @@ def labelled(r):
 
 
 def run_case(ctx, case):
+    return common.case_guard(ctx, case, _run_case)
+
+
+def _run_case(ctx, case):
     import tucan.canonicalization as c
     import tucan.io.molfile_reader as mr
     plan = PLAN[ctx.tier]
